@@ -47,6 +47,8 @@ def cases(seed, tier):
     pg = gen.PlanGen(rng, specs)
     S = pg.S
     persistent = rand_md(rng, "persist")
+    if rng.random() < 0.2:
+        persistent = {}  # a store that is empty when the engine is built and filled by its owner later
     case = {
         "prop": ID,
         "seed": seed,
@@ -75,6 +77,10 @@ def cases(seed, tier):
             body.extend(run)
             body.append(msg(S, "checkpoint"))
         case["script"].append({"do": "call", "plan": body, "md": rand_md(rng, f"call{ci}"), "plan_name": f"plan{ci}", "main": ci == 0})
+        if ci + 1 < ncalls and rng.random() < 0.5:
+            # between two calls the owner writes to the mapping they handed to RunEngine(md): it is the engine's
+            # persistent layer, so the key shows up in the next RunStart
+            case["script"].append({"do": "store_put", "key": rng.choice(KEYS), "value": f"later{ci}"})
     dry = generic.run_case(case)
     dv = View(dry)
     if dry.aborted or any(c.outcome != "return" for c in dv.calls):
@@ -104,7 +110,16 @@ def check(res):
     reject_key = case["re"].get("reject_key") if case["re"].get("md_validator") else None
     call_steps = [s for s in case["script"] if s["do"] == "call"]
     last_scan = 0
-    for inv, step in zip(v.invocations, call_steps):
+    invs = iter(v.invocations)
+    for step in case["script"]:
+        if step["do"] == "store_put":
+            persistent[step["key"]] = step["value"]
+            continue
+        if step["do"] != "call":
+            continue
+        inv = next(invs, None)
+        if inv is None:
+            break
         call_md = step.get("md", {})
         msgs = {}
         for e in inv.events:
@@ -146,4 +161,7 @@ def check(res):
             sid = inv.calls[-1].end.d.get("scan_id")
             if last_scan and sid != last_scan:
                 out.append(V("persistent-scan-id", f"RE.md['scan_id'] = {sid} but the last RunStart has {last_scan}"))
+            store = inv.calls[-1].end.d.get("store_scan_id", sid)
+            if last_scan and store != last_scan:
+                out.append(V("persistent-store-not-updated", f"the mapping given to RunEngine(md) holds scan_id = {store} but the last RunStart has {last_scan}"))
     return out
